@@ -32,7 +32,14 @@ func (f F) CDF(x float64) float64 {
 	if x < 0 {
 		return 0
 	}
-	return mathext.RegIncBeta(f.D1/2, f.D2/2, f.D1*x/(f.D1*x+f.D2))
+	// The CDF is I_t(D1/2, D2/2) at t = D1*x/(D1*x+D2). When t is above 1/2
+	// use 1 - I_{1-t}(D2/2, D1/2) with 1-t evaluated directly: next to 1, t
+	// itself cannot resolve the tail.
+	d1x := f.D1 * x
+	if d1x > f.D2 {
+		return 1 - mathext.RegIncBeta(f.D2/2, f.D1/2, f.D2/(d1x+f.D2))
+	}
+	return mathext.RegIncBeta(f.D1/2, f.D2/2, d1x/(d1x+f.D2))
 }
 
 // ExKurtosis returns the excess kurtosis of the distribution.
@@ -101,6 +108,11 @@ func (f F) Quantile(p float64) float64 {
 		panic(badPercentile)
 	}
 	y := mathext.InvRegIncBeta(0.5*f.D1, 0.5*f.D2, p)
+	if y > 0.5 {
+		// 1-y would cancel: invert the reflected function instead.
+		yc := mathext.InvRegIncBeta(0.5*f.D2, 0.5*f.D1, 1-p)
+		return f.D2 * (1 - yc) / (f.D1 * yc)
+	}
 	return f.D2 * y / (f.D1 * (1 - y))
 }
 
@@ -135,7 +147,14 @@ func (f F) StdDev() float64 {
 
 // Survival returns the survival function (complementary CDF) at x.
 func (f F) Survival(x float64) float64 {
-	return 1 - f.CDF(x)
+	if x < 0 {
+		return 1
+	}
+	d1x := f.D1 * x
+	if d1x > f.D2 {
+		return mathext.RegIncBeta(f.D2/2, f.D1/2, f.D2/(d1x+f.D2))
+	}
+	return 1 - mathext.RegIncBeta(f.D1/2, f.D2/2, d1x/(d1x+f.D2))
 }
 
 // Variance returns the variance of the probability distribution.
